@@ -73,6 +73,38 @@ def xmlTree (base : Option Str) (g : List XTriple) : XDoc :=
   ((firstOcc (g.map (·.1))).filter isNode).map (fun s =>
     ⟨subjAttrs base s, (g.filter (fun t => t.1 == s)).map (fun t => propEl base t.2.1 t.2.2)⟩)
 
+/-- The head of `XMLSerializer.serialize` (same in `PrettyXMLSerializer.serialize`): which xml:base the document DECLARES
+    and against which base `relativize` CUTS.  `self.base = base if base is not None else self.store.base`; if the
+    `xml_base` option is given and differs, `self.base = None`; declared: the option if given, else `self.base` if truthy. -/
+def xmlBases (baseArg storeBase xmlBaseOpt : Option Str) : Option Str × Option Str :=
+  let b := match baseArg with
+    | some x => some x
+    | none => storeBase
+  let cut := match xmlBaseOpt with
+    | some x => if some x = b then b else none
+    | none => b
+  let declared := match xmlBaseOpt with
+    | some x => some x
+    | none => match cut with
+      | some c => if c.isEmpty then none else some c
+      | none => none
+  (declared, cut)
+
+/-- before the repairs C03-F41 / F42: `relativize` used `self.base` whatever the option said -/
+def xmlBasesOld (baseArg storeBase xmlBaseOpt : Option Str) : Option Str × Option Str :=
+  let b := match baseArg with
+    | some x => some x
+    | none => storeBase
+  (match xmlBaseOpt with
+    | some x => some x
+    | none => match b with
+      | some c => if c.isEmpty then none else some c
+      | none => none, b)
+
+/-- the whole document: declared xml:base and the rdf:Description elements -/
+def xmlDocument (baseArg storeBase xmlBaseOpt : Option Str) (g : List XTriple) : Option Str × XDoc :=
+  ((xmlBases baseArg storeBase xmlBaseOpt).1, xmlTree (xmlBases baseArg storeBase xmlBaseOpt).2 g)
+
 /-! ### reader -/
 
 def xlookup (k : XKey) : List (XKey × Str) → Option Str
